@@ -660,6 +660,10 @@ def run_one(cfg, tape: Tape, want_trace=False):
     oracle_ref = [None]
     faults = Faults(tape, cfg, oracle_ref)
     existing = {os.path.normpath(f'{ROOT}/{f}') for f in FILES}
+    if tape.draw(3, 'first_use') == 2:
+        # first use: the lock files do not exist yet, whoever comes first creates them
+        existing = set()
+        stats['probe.first_use_of_the_lock_files'] = stats.get('probe.first_use_of_the_lock_files', 0) + 1
     # one run in four is a process whose standard descriptors are closed (a daemon): the lock
     # file may then be opened on descriptor 0, 1 or 2
     first_fd = 0 if tape.draw(4, 'first_fd') == 3 else 3
